@@ -103,4 +103,17 @@ class C07(Prop):
                 and "link-touching-page-without-webentity" in f)
 
 
+    # scale probe (tv/scale.py): 320 webentities (ids beyond 256), 1280+ pages, judged once by this property's oracle
+    def extra_checks(self, ctx, tier, seed, shard, nshards):
+        if shard != 2 % nshards:
+            return
+        from ..scale import build
+        case = build(self, ctx, 320 if tier == "quick" else 700)
+        try:
+            self.after_op(case, ("links", []), None, None)
+            ctx.extra["scale_probe_pages"] += len(case.led.pages)
+            ctx.extra["scale_probe_webentities"] += len(case.led.webentities())
+        finally:
+            case.abort()
+
 PROP = C07()
